@@ -28,6 +28,145 @@ theorem Inv.job_of_nofrozen {cfg : Cfg} {s : St} {d : Disk} (h : Inv cfg s d) (h
     · assumption
     · rw [htr] at hk; exact absurd hk.2.2.2.2 id
 
+/-- without a job the only edit the storage can be ahead by is that of a discarded transaction -/
+theorem LimboOK.orphan_of_nojob {s : St} {d : Disk} (h : LimboOK s d) (hj : s.job = none) {u : MRec}
+    (hu : s.limbo = some u) : LimboFacts s d u ∧ OrphanOK s d u := by
+  unfold LimboOK at h
+  rw [hu] at h
+  have h : LimboFacts s d u := h
+  refine ⟨h, ?_⟩
+  rcases h.2.2.2.2.2.2.2 with h1 | h1
+  · rw [hj] at h1; exact absurd h1 id
+  · exact h1
+
+/-- the last view of the manifest as the session sees it when no job runs: the session's tables are live in it,
+    its journal number is the session's, its sequence number is not below the session's -/
+theorem Inv.nojob_view {cfg : Cfg} {s : St} {d : Disk} (h : Inv cfg s d) (hph : s.phase = .running)
+    (hjob : s.job = none) :
+    ∃ mf vl, curManifest d = some mf ∧ lastView cfg d = some vl ∧ viewAt cfg mf mf.unsynced.length = some vl ∧
+      (∀ t ∈ s.live, t ∈ vl.live) ∧ vl.jn = s.stJn ∧ s.stSq ≤ vl.sq := by
+  have hrun := h.run hph
+  obtain ⟨mf, v0, hparts⟩ := h.disk.parts
+  obtain ⟨vl, hvl, _, _⟩ := hparts.views mf.unsynced.length (Nat.le_refl _)
+  have hlv : lastView cfg d = some vl := by rw [lastView_eq hparts.cur]; exact hvl
+  have hsett := hrun.nojob hjob
+  unfold Settled at hsett
+  have hm := (holds_some hsett hparts.cur).2
+  rw [hlv] at hm
+  refine ⟨mf, vl, hparts.cur, hlv, hvl, ?_⟩
+  cases hu : s.limbo with
+  | none =>
+    have hm := (MirrorL.of_none hu).1 hm
+    exact ⟨fun t ht => by rw [hm.1]; exact ht, hm.2.1, Nat.le_of_eq hm.2.2.symm⟩
+  | some u =>
+      obtain ⟨m1, m2, m3⟩ : MirrorE s u vl := (MirrorL.of_some hu).1 hm
+      obtain ⟨hf, ho⟩ := hrun.limbo.orphan_of_nojob hjob hu
+      obtain ⟨hdel, hjn, _⟩ := ho
+      refine ⟨fun t ht => ?_, by rw [m2, hjn]; rfl, by rw [m3]; exact hf.2.2.2.2.1⟩
+      rw [m1, mem_applyEdit]
+      refine Or.inl ⟨ht, by rw [hdel]; exact List.not_mem_nil, fun ha => ?_⟩
+      have := (hf.2.2.2.2.2.1 t ht).1 t ha
+      omega
+
+/-- a view ahead of the session by the ghost edit is not behind it -/
+theorem MirrorL.ge {s : St} {d : Disk} (hl : LimboOK s d) {v : MView} (h : MirrorL s v) :
+    s.stJn ≤ v.jn ∧ s.stSq ≤ v.sq := by
+  cases hu : s.limbo with
+  | none =>
+    have h := (MirrorL.of_none hu).1 h
+    exact ⟨Nat.le_of_eq h.2.1.symm, Nat.le_of_eq h.2.2.symm⟩
+  | some u =>
+    unfold LimboOK at hl
+    rw [hu] at hl
+    have hl : LimboFacts s d u := hl
+    obtain ⟨_, m2, m3⟩ : MirrorE s u v := (MirrorL.of_some hu).1 h
+    exact ⟨by rw [m2]; exact hl.2.2.2.1, by rw [m3]; exact hl.2.2.2.2.1⟩
+
+/-- with no transaction open and at most a table compaction running the session is not ahead of the DB: its
+    journal number is at most the current journal's, its sequence number at most `db.seq` -/
+theorem Inv.sess_bounds {cfg : Cfg} {s : St} {d : Disk} (h : Inv cfg s d) (hph : s.phase = .running)
+    (hjob : Holds' s.job fun j => j.kind = .compaction) : s.stJn ≤ s.jcur ∧ s.stSq ≤ s.seq := by
+  have hrun := h.run hph
+  have hb := h.bounds (by rw [hph]; decide)
+  have hntw : ¬ TrWindow s := by
+    cases hj : s.job with
+    | none => exact not_trWindow_of_nojob hj
+    | some j =>
+      rw [hj] at hjob
+      have hk : j.kind = .compaction := hjob
+      exact not_trWindow_of_kind hj (by rw [hk]; exact fun hx => nomatch hx)
+  -- some admissible view is not behind the session
+  have key : ∃ mf k v, curManifest d = some mf ∧ k ≤ mf.unsynced.length ∧ viewAt cfg mf k = some v ∧
+      s.stJn ≤ v.jn ∧ s.stSq ≤ v.sq := by
+    obtain ⟨mf, v0, hparts⟩ := h.disk.parts
+    obtain ⟨vl, hvl, _, _⟩ := hparts.views mf.unsynced.length (Nat.le_refl _)
+    have hlv : lastView cfg d = some vl := by rw [lastView_eq hparts.cur]; exact hvl
+    have hlast : ∀ P : MView → Prop, Holds (lastView cfg d) P → P vl := fun P hP => by rw [hlv] at hP; exact hP
+    have ofL : MirrorL s vl → ∃ mf k v, curManifest d = some mf ∧ k ≤ mf.unsynced.length ∧
+        viewAt cfg mf k = some v ∧ s.stJn ≤ v.jn ∧ s.stSq ≤ v.sq := fun hm =>
+      ⟨mf, _, vl, hparts.cur, Nat.le_refl _, hvl, hm.ge hrun.limbo⟩
+    have ofM : Mirror s vl → ∃ mf k v, curManifest d = some mf ∧ k ≤ mf.unsynced.length ∧
+        viewAt cfg mf k = some v ∧ s.stJn ≤ v.jn ∧ s.stSq ≤ v.sq := fun hm =>
+      ⟨mf, _, vl, hparts.cur, Nat.le_refl _, hvl, Nat.le_of_eq hm.2.1.symm, Nat.le_of_eq hm.2.2.symm⟩
+    have ofS : ∀ P, Settled cfg s d P → P vl := fun P hs => by
+      unfold Settled at hs
+      exact hlast P (holds_some hs hparts.cur).2
+    cases hj : s.job with
+    | none => exact ofL (ofS _ (hrun.nojob hj))
+    | some j =>
+      rw [hj] at hjob
+      have hk : j.kind = .compaction := hjob
+      have hok := h.job
+      rw [hj] at hok
+      have hok : JobOK cfg s d j := hok
+      have hkind := hok.kind
+      unfold JobKindOK at hkind
+      rw [hk] at hkind
+      simp only at hkind
+      obtain ⟨e, he⟩ : ∃ e, j.edit = some e := by
+        cases hx : j.edit with
+        | none => rw [hx] at hkind; exact absurd hkind.2.2.2 (by simp)
+        | some e => exact ⟨e, rfl⟩
+      have hin := hok.inputs
+      rw [he] at hin
+      have hin : InputsOK s d j e := hin
+      unfold InputsOK at hin
+      rw [if_pos hk] at hin
+      have ofE : MirrorE s e vl → ∃ mf k v, curManifest d = some mf ∧ k ≤ mf.unsynced.length ∧
+          viewAt cfg mf k = some v ∧ s.stJn ≤ v.jn ∧ s.stSq ≤ v.sq := fun hm =>
+        ⟨mf, _, vl, hparts.cur, Nat.le_refl _, hvl, by rw [hm.2.1, hin.1]; exact Nat.le_refl _,
+          by rw [hm.2.2, hin.2.1]; exact Nat.le_refl _⟩
+      have hman := hok.manifest
+      unfold JobManifestOK at hman
+      rw [he] at hman
+      simp only at hman
+      cases hpc : j.pc <;> rw [hpc] at hman <;> simp only [JobManifest] at hman
+      case tCreate => exact ofL (ofS _ hman)
+      case tWrite => exact ofL (ofS _ hman)
+      case tSync => exact ofL (ofS _ hman)
+      case mkJournal => exact ofL (ofS _ hman)
+      case append => exact ofL (ofS _ hman)
+      case rotWrite => exact ofL (ofS _ hman.1)
+      case rotSync => exact ofL (ofS _ hman.1)
+      case rotSetMeta => exact ofL (ofS _ hman.1)
+      case rotRemove =>
+        have := (holds_some hman.2.2 hparts.cur).2
+        exact ofE (hlast _ this)
+      case sync =>
+        have := (holds_some hman.2 hparts.cur).2
+        rw [hparts.hv0] at this
+        have hm : Mirror s v0 := this
+        exact ⟨mf, 0, v0, hparts.cur, Nat.zero_le _, hparts.hv0, Nat.le_of_eq hm.2.1.symm, Nat.le_of_eq hm.2.2.symm⟩
+      case install => exact ofE (ofS _ hman.2)
+      case rmJ => exact ofL (ofS _ hman.2.1)
+      case rmT => exact ofL (ofS _ hman.2.1)
+      case rmM => exact ofL (ofS _ hman.2.1)
+      case done => exact ofL (ofS _ hman.2.1)
+  obtain ⟨mf, k, v, hc, hk, hv, h1, h2⟩ := key
+  have hbv := hb.all mf hc k hk v hv
+  rw [seqHi_eq hntw] at hbv
+  exact ⟨Nat.le_trans h1 (hbv.2.2 hph), Nat.le_trans h2 hbv.1⟩
+
 /-- the snapshot record does not depend on the next-file counter once its `nf` is fixed -/
 theorem snapshotRec_nf (cfg : Cfg) (s s' : St) (e : MRec) (x : Nat) (h1 : s'.manifestOpen = s.manifestOpen)
     (h2 : s'.stJn = s.stJn) (h3 : s'.stSq = s.stSq) (h4 : s'.live = s.live) :
@@ -124,8 +263,10 @@ theorem inv_rotate {cfg : Cfg} {s : St} {d : Disk} (h : Inv cfg s d) {s' : St} {
       exact hb.of_same rfl (seqHi_le_of_not_window hntw hntw (Nat.le_refl _)) (Nat.le_succ _)
         (fun _ => ⟨hph, Nat.le_of_lt hjlt⟩)
     · intro _
-      obtain ⟨r1, r2, r3, r4, r5, r6, r7, r8, r9⟩ := hrun
-      refine ⟨⟨r1.1, by unfold TrOK; show Holds' s.tr _; rw [htr]; trivial⟩, ?_, ?_, ?_, ?_, ?_, ?_, ?_, ?_⟩
+      have hsb := h.sess_bounds hph hjob
+      obtain ⟨r1, r2, r3, r4, r5, r6, r7, r8, r9, r10⟩ := hrun
+      refine ⟨⟨r1.1, by unfold TrOK; show Holds' s.tr _; rw [htr]; trivial⟩, ?_, ?_, ?_, ?_, ?_, ?_, ?_, ?_,
+        r10.frame rfl rfl rfl rfl rfl rfl rfl (Nat.le_refl _) (fun g hg => Or.inl hg) (Nat.le_succ _)⟩
       · exact r2
       · show Holds (lookup (d.journals.set s.nextFile ⟨[], []⟩) s.nextFile) _
         rw [lookup_set, if_pos rfl]
@@ -162,15 +303,7 @@ theorem inv_rotate {cfg : Cfg} {s : St} {d : Disk} (h : Inv cfg s d) {s' : St} {
             cases this
             exact hall
         · intro _
-          refine ⟨⟨(s.jcur, jf), (mem_set hnd).2 (Or.inr ⟨lookup_some_mem hjf, Nat.ne_of_lt hjlt⟩), rfl⟩, ?_⟩
-          obtain ⟨mf, v0, hparts⟩ := h.disk.parts
-          obtain ⟨v, hv, _, _⟩ := hparts.views mf.unsynced.length (Nat.le_refl _)
-          have hlv : lastView cfg { d with journals := d.journals.set s.nextFile ⟨[], []⟩ } = some v := by
-            rw [← hv]; exact lastView_eq hparts.cur
-          rw [hlv]
-          have hbv := hb.all mf hparts.cur _ (Nat.le_refl _) v hv
-          rw [seqHi_eq hntw] at hbv
-          exact ⟨hbv.2.2 hph, hbv.1⟩
+          exact ⟨⟨(s.jcur, jf), (mem_set hnd).2 (Or.inr ⟨lookup_some_mem hjf, Nat.ne_of_lt hjlt⟩), rfl⟩, hsb⟩
       · refine r8.imp (fun mf hmf => hmf.imp (fun v0 hv0 p hp hjn => ?_))
         rcases (mem_set hnd).1 hp with rfl | ⟨hp0, _⟩
         · exact Or.inl rfl
@@ -217,8 +350,9 @@ theorem inv_rotate_failEffect {cfg : Cfg} {s : St} {d : Disk} (h : Inv cfg s d) 
     · intro _
       exact hb.of_same rfl (Nat.le_refl _) (Nat.le_refl _) (fun _ => ⟨hph, Nat.le_refl _⟩)
     · intro _
-      obtain ⟨r1, r2, r3, r4, r5, r6, r7, r8, r9⟩ := hrun
-      refine ⟨r1, r2, ?_, ⟨r4.1, fun p hp => ?_⟩, ⟨fun p hp => ?_, r5.2⟩, r6, ?_, ?_, r9⟩
+      obtain ⟨r1, r2, r3, r4, r5, r6, r7, r8, r9, r10⟩ := hrun
+      refine ⟨r1, r2, ?_, ⟨r4.1, fun p hp => ?_⟩, ⟨fun p hp => ?_, r5.2⟩, r6, ?_, ?_, r9,
+        r10.frame rfl rfl rfl rfl rfl rfl rfl (Nat.le_refl _) (fun g hg => Or.inl hg)⟩
       · show Holds (lookup (d.journals.set s.nextFile ⟨[], []⟩) s.jcur) _
         rw [lookup_set, if_neg (Nat.ne_of_lt hjlt)]
         exact r3
@@ -256,9 +390,9 @@ theorem inv_rotate_failEffect {cfg : Cfg} {s : St} {d : Disk} (h : Inv cfg s d) 
           · rename_i rest heq
             rw [heq] at hv
             simp only at hv
-            have hnil : rest = [] := hv.2.2 (Or.inl hk)
+            have hnil : rest = [] := hv.2.2.1 (Or.inl hk)
             subst hnil
-            exact ⟨fun n hn => (by cases hn), hv.2.1, fun _ => rfl⟩
+            exact ⟨fun n hn => (by cases hn), hv.2.1, fun _ => rfl, fun _ n hn => (by cases hn)⟩
           · rename_i rest heq; rw [heq] at hv; exact hv
           · rename_i rest heq; rw [heq] at hv; exact hv
           · trivial
@@ -286,11 +420,9 @@ theorem inv_flushStart {cfg : Cfg} {s : St} {d : Disk} (h : Inv cfg s d) {s' : S
       rcases frozenOK_iff.1 hrun.frozen with ⟨h1, _⟩ | ⟨fz', jf', h1, h2, f1, f2, f3, f4, f5, f6⟩
       · rw [hfz] at h1; cases h1
       rw [hfz] at h1; rw [hjf] at h2; cases h1; cases h2
-      have hmfd : s.manifestFd = d.current := by
-        have := hrun.mfd.1
-        unfold MfdOK at this
-        rw [hjob] at this
-        exact this
+      have hmfd : ∀ j' : Job, (∀ m, j'.pc ≠ .rotRemove m) → ∀ nf', MfdOK { s with job := some j', nextFile := nf' } d :=
+        fun j' hj' nf' => hrun.mfd.1.transport (by rw [hjob]; intro m hm; cases hm)
+          (by intro m hm; exact hj' m (Option.some.inj hm)) rfl rfl rfl
       split at hs
       · -- empty frozen buffer: only `dropFrozenMem`
         rename_i hemp
@@ -304,9 +436,11 @@ theorem inv_flushStart {cfg : Cfg} {s : St} {d : Disk} (h : Inv cfg s d) {s' : S
           exact hb.of_same rfl (seqHi_le_of_not_window (not_trWindow_of_nojob hjob)
             (not_trWindow_of_kind rfl (fun hk => by cases hk)) (Nat.le_refl _)) (Nat.le_refl _) (fun _ => ⟨hph, Nat.le_refl _⟩)
         · intro _
-          obtain ⟨r1, r2, r3, r4, r5, r6, r7, r8, r9⟩ := hrun
-          refine ⟨r1, ⟨?_, r2.2⟩, r3, r4, r5, r6, ?_, r8, fun hc => by cases hc⟩
-          · show MfdOK _ d; unfold MfdOK; exact hmfd
+          obtain ⟨r1, r2, r3, r4, r5, r6, r7, r8, r9, r10⟩ := hrun
+          refine ⟨r1, ⟨?_, r2.2⟩, r3, r4, r5, r6, ?_, r8, (fun hc => by cases hc),
+            r10.spawn hjob rfl (fun o ho => by cases ho) (Or.inl rfl) rfl rfl rfl rfl rfl rfl (Nat.le_refl _)
+              (fun g hg => Or.inl hg) (Nat.le_refl _)⟩
+          · exact hmfd _ (by intro m hm; cases hm) _
           · apply frozenOK_iff.2
             refine Or.inr ⟨fz, jf, hfz, hjf, f1, f2, f3, f4, f5, ?_⟩
             intro hn
@@ -326,7 +460,8 @@ theorem inv_flushStart {cfg : Cfg} {s : St} {d : Disk} (h : Inv cfg s d) {s' : S
           · rw [hlv]
             simp only [Holds]
             unfold RemovalsOK
-            refine ⟨fun n hn => ?_, fun t ht => (by cases ht), fun hk => (by rcases hk with hk | hk <;> cases hk)⟩
+            refine ⟨fun n hn => ?_, fun t ht => (by cases ht), fun hk => (by rcases hk with hk | hk <;> cases hk),
+              fun _ n hn => hn⟩
             simp only [List.mem_singleton] at hn
             subst hn
             refine ⟨Or.inr ⟨f1, fun p hp hpn g hg => ?_⟩, fun x hx => by cases hx⟩
@@ -349,10 +484,13 @@ theorem inv_flushStart {cfg : Cfg} {s : St} {d : Disk} (h : Inv cfg s d) {s' : S
           exact hb.of_same rfl (seqHi_le_of_not_window (not_trWindow_of_nojob hjob)
             (not_trWindow_of_kind rfl (fun hk => by cases hk)) (Nat.le_refl _)) (Nat.le_succ _) (fun _ => ⟨hph, Nat.le_refl _⟩)
         · intro _
-          obtain ⟨r1, r2, r3, r4, r5, r6, r7, r8, r9⟩ := hrun
+          obtain ⟨r1, r2, r3, r4, r5, r6, r7, r8, r9, r10⟩ := hrun
           refine ⟨r1, ⟨?_, r2.2⟩, r3, ⟨Nat.lt_succ_of_lt r4.1, r4.2⟩, ⟨nums_bump r5.1 (Nat.lt_succ_self _),
-            r5.2.imp (fun m hm => Nat.lt_succ_of_lt hm)⟩, r6, ?_, r8, fun hc => by cases hc⟩
-          · show MfdOK _ d; unfold MfdOK; exact hmfd
+            r5.2.imp (fun m hm => Nat.lt_succ_of_lt hm)⟩, r6, ?_, r8, (fun hc => by cases hc),
+            r10.spawn hjob rfl (fun o ho => by
+                simp only [List.mem_singleton] at ho; subst ho; exact Nat.le_refl _) (Or.inr rfl)
+              rfl rfl rfl rfl rfl rfl (Nat.le_refl _) (fun g hg => Or.inl hg) (Nat.le_succ _)⟩
+          · exact hmfd _ (by intro m hm; cases hm) _
           · apply frozenOK_iff.2
             exact Or.inr ⟨fz, jf, hfz, hjf, f1, f2, f3, f4, f5, fun _ => f6 hnc.flushPending⟩
         · intro hc; rw [hph] at hc; cases hc
@@ -380,7 +518,7 @@ theorem inv_flushStart {cfg : Cfg} {s : St} {d : Disk} (h : Inv cfg s d) {s' : S
             refine ⟨fun o ho => ?_, fun n hn => by cases hn⟩
             simp only [List.mem_singleton] at ho
             subst ho
-            exact (hb.all mf' hcur k hk v hv).2.1
+            exact Or.inl (hb.all mf' hcur k hk v hv).2.1
           · exact ⟨rfl, rfl, rfl⟩
           · intro i o hi
             show OutOK d (.tCreate 0) i o
@@ -405,28 +543,21 @@ theorem inv_compactStart {cfg : Cfg} {s : St} {d : Disk} (h : Inv cfg s d) {inpu
     have hrun := h.run hph
     have hb := h.bounds (by rw [hph]; decide)
     have hsett := hrun.nojob hjob
-    obtain ⟨mf, vl, hcur, hlv, hvl⟩ := h.lastView_some
-    have hmfd : s.manifestFd = d.current := by
-      have := hrun.mfd.1
-      unfold MfdOK at this
-      rw [hjob] at this
-      exact this
+    obtain ⟨mf, vl, hcur, hlv, hvl, hlin, _, _⟩ := h.nojob_view hph hjob
+    have hmfd : ∀ j' : Job, (∀ m, j'.pc ≠ .rotRemove m) → ∀ nf', MfdOK { s with job := some j', nextFile := nf' } d :=
+      fun j' hj' nf' => hrun.mfd.1.transport (by rw [hjob]; intro m hm; cases hm)
+        (by intro m hm; exact hj' m (Option.some.inj hm)) rfl rfl rfl
     have hfp : FlushPending s := by unfold FlushPending; rw [hjob]; trivial
     have hlive : ∀ t ∈ inputs, t ∈ s.live := by
       intro t ht
       have := List.all_eq_true.1 hall t ht
       simpa using this
     -- live tables lie below the next file number
-    have hmir : Mirror s vl := by
-      unfold Settled at hsett
-      have := (holds_some hsett hcur).2
-      rw [hlv] at this
-      exact this
     have hvok := h.disk.allViews mf hcur _ (Nat.le_refl _) vl hvl
     have hbv := hb.all mf hcur _ (Nat.le_refl _) vl hvl
     have hlt : ∀ t ∈ inputs, t < s.nextFile := by
       intro t ht
-      have := (hvok.tables t (by rw [hmir.1]; exact hlive t ht)).1
+      have := (hvok.tables t (hlin t (hlive t ht))).1
       exact Nat.lt_of_lt_of_le this hbv.2.1
     constructor
     · exact h.disk
@@ -435,10 +566,13 @@ theorem inv_compactStart {cfg : Cfg} {s : St} {d : Disk} (h : Inv cfg s d) {inpu
       exact hb.of_same rfl (seqHi_le_of_not_window (not_trWindow_of_nojob hjob)
         (not_trWindow_of_kind rfl (fun hk => by cases hk)) (Nat.le_refl _)) (Nat.le_succ _) (fun _ => ⟨hph, Nat.le_refl _⟩)
     · intro _
-      obtain ⟨r1, r2, r3, r4, r5, r6, r7, r8, r9⟩ := hrun
+      obtain ⟨r1, r2, r3, r4, r5, r6, r7, r8, r9, r10⟩ := hrun
       refine ⟨r1, ⟨?_, r2.2⟩, r3, ⟨Nat.lt_succ_of_lt r4.1, r4.2⟩, ⟨nums_bump r5.1 (Nat.lt_succ_self _),
-        r5.2.imp (fun m hm => Nat.lt_succ_of_lt hm)⟩, r6, ?_, r8, fun hc => by cases hc⟩
-      · show MfdOK _ d; unfold MfdOK; exact hmfd
+        r5.2.imp (fun m hm => Nat.lt_succ_of_lt hm)⟩, r6, ?_, r8, (fun hc => by cases hc),
+        r10.spawn hjob rfl (fun o ho => by
+            simp only [List.mem_singleton] at ho; subst ho; exact Nat.le_refl _) (Or.inr rfl)
+          rfl rfl rfl rfl rfl rfl (Nat.le_refl _) (fun g hg => Or.inl hg) (Nat.le_succ _)⟩
+      · exact hmfd _ (by intro m hm; cases hm) _
       · rcases frozenOK_iff.1 r7 with ⟨h1, h2⟩ | ⟨fz, jf, h1, h2, f1, f2, f3, f4, f5, f6⟩
         · exact frozenOK_iff.2 (Or.inl ⟨h1, h2⟩)
         · exact frozenOK_iff.2 (Or.inr ⟨fz, jf, h1, h2, f1, f2, f3, f4, f5, fun _ => f6 hfp⟩)
@@ -467,7 +601,7 @@ theorem inv_compactStart {cfg : Cfg} {s : St} {d : Disk} (h : Inv cfg s d) {inpu
         refine ⟨fun o ho => ?_, fun n hn => by cases hn⟩
         simp only [List.mem_singleton] at ho
         subst ho
-        exact (hb.all mf' hcur k hk v hv).2.1
+        exact Or.inl (hb.all mf' hcur k hk v hv).2.1
       · exact ⟨rfl, rfl, rfl⟩
       · intro i o hi
         show OutOK d (.tCreate 0) i o
